@@ -241,7 +241,9 @@ func decodeFloat(buf []byte) ([]byte, float64, error) {
 }
 
 func encodeFloat(x float64) []byte {
-	if x == 0 || math.IsNaN(x) || math.IsInf(x, 0) {
+	if x == 0 || math.IsNaN(x) || math.IsInf(x, 0) || math.Abs(x) < 1e-300 {
+		// The reader maps everything below 1e-300 to zero, and the digit
+		// extraction below does not terminate for subnormal numbers.
 		return []byte{0x0f}
 	}
 
